@@ -591,8 +591,10 @@ def kinds_of(md):
     return sorted({type(e).__name__ + (":" + e.type if type(e).__name__ == "PrimitiveEntry" else "") for e in md.manifest.values()})
 
 
-def storage_roundtrip(md):
-    """Snapshot._write_snapshot_metadata -> in-memory storage plugin -> Snapshot._read_snapshot_metadata"""
+def storage_roundtrip(md, fill=False):
+    """Snapshot._write_snapshot_metadata -> in-memory storage plugin -> Snapshot._read_snapshot_metadata.
+    fill=False: the plugin REPLACES read_io.buf (as the fs and s3 plugins do); fill=True: it writes into the buffer the
+    caller supplied and rewinds it (as the gcs plugin's chunked download does)."""
     import asyncio
     import io
     from torchsnapshot.io_types import StoragePlugin
@@ -606,7 +608,11 @@ def storage_roundtrip(md):
             self.d[write_io.path] = bytes(write_io.buf)
 
         async def read(self, read_io):
-            read_io.buf = io.BytesIO(self.d[read_io.path])
+            if fill:
+                read_io.buf.write(self.d[read_io.path])
+                read_io.buf.seek(0)
+            else:
+                read_io.buf = io.BytesIO(self.d[read_io.path])
 
         async def delete(self, path):
             pass
@@ -654,14 +660,16 @@ def oracle_roundtrip(md, M, res: Result, objs=None):
                                         f"manifest read back differs from the one written at {[cps(p) for p in bad[:3]]}", replay))
         return doc
     # the same through the real write/read path of the snapshot (utf-8 encode, storage plugin, decode)
-    try:
-        back2 = storage_roundtrip(md)
-        if not strict_eq(md, back2):
-            res.failures.append(Failure("C14:write-path-differs", "metadata written through Snapshot._write_snapshot_metadata and read "
-                                        "back through _read_snapshot_metadata differs from the one written", replay))
-    except Exception as e:
-        res.failures.append(Failure(f"C14:write-path-raises:{type(e).__name__}",
-                                    f"writing/reading the metadata through the storage path raised {type(e).__name__}: {str(e)[:200]}", replay))
+    for fill in (False, True):
+        how = "a plugin that fills the supplied buffer" if fill else "a plugin that replaces the buffer"
+        try:
+            back2 = storage_roundtrip(md, fill=fill)
+            if not strict_eq(md, back2):
+                res.failures.append(Failure("C14:write-path-differs", "metadata written through Snapshot._write_snapshot_metadata and read "
+                                            f"back through _read_snapshot_metadata ({how}) differs from the one written", dict(replay, fill=fill)))
+        except Exception as e:
+            res.failures.append(Failure(f"C14:write-path-raises:{type(e).__name__}",
+                                        f"writing/reading the metadata through the storage path ({how}; earlier documents of other sizes were read in this process) raised {type(e).__name__}: {str(e)[:200]}", dict(replay, fill=fill)))
     # get_value is preserved bit for bit
     for p, e in md.manifest.items():
         if type(e).__name__ == "PrimitiveEntry":
